@@ -36,6 +36,8 @@ type vfC02PskRun struct {
 	file string
 	w    vfh.Walk
 	log  []any
+	// "first" / "later": a write of this walk was refused whole (first = the very first write of the connection)
+	refused string
 }
 
 func (r *vfC02PskRun) mismatch(step int, class, what string, exp, got any) {
@@ -81,7 +83,13 @@ func (r *vfC02PskRun) run() {
 		if p == nil {
 			return false
 		}
-		r.mismatch(si, p.Class, p.What, p.Expected, p.Got)
+		cls := p.Class
+		if r.refused != "" {
+			// stable class keys for what happens behind a write that was refused whole: on the first write of the
+			// connection (the nonce has not gone out yet) / on a later one
+			cls = "psk-refused-" + r.refused + "-write-garbles"
+		}
+		r.mismatch(si, cls, p.What, p.Expected, p.Got)
 		return true
 	}
 	var buf []byte
@@ -101,12 +109,35 @@ func (r *vfC02PskRun) run() {
 			if short {
 				wire.InjectShortWrite() // the underlying connection takes a part of the next write and times out
 			}
+			refused := op.B("refused")
+			if refused {
+				wire.InjectRefuseWrite() // ... refuses the next write whole: 0 bytes, an error, nothing on the wire
+			}
 			var n int
 			var err error
 			vfc02.Guard("pskConn.Write", func() { n, err = wc.Write(led.Next(K)) })
 			r.log = append(r.log, map[string]any{"op": "write", "k": k, "real": K, "short": short, "n": n, "err": fmt.Sprint(err)})
 			if l1(si, led.OnWrite(K, n, err)) {
 				return
+			}
+			if refused {
+				// nothing was accepted and nothing is on the wire; the caller goes on writing, and from here on every
+				// byte of a write that reports success must arrive unmodified, once, in order
+				if err == nil || n != 0 {
+					r.mismatch(si, "L2:psk-refused-write", fmt.Sprintf("the refusal of the connection was not reported as (0, error): Write(%d) = (%d, %v)", K, n, err), "0, error", n)
+				}
+				if wire.Written != before {
+					r.mismatch(si, "MACHINERY", "a refused write put bytes on the wire", nil, nil)
+					return
+				}
+				if r.refused == "" {
+					r.refused = "later"
+					if op.B("nonce") {
+						r.refused = "first"
+					}
+				}
+				r.res.Case("write/refused/" + r.refused)
+				break
 			}
 			if short {
 				// accepted = what Write reported; the walk writes no more (wdead in the model)
